@@ -87,9 +87,8 @@ impl<'tcx> Dumper<'tcx> {
                     DefKind::Fn | DefKind::AssocFn => {
                         o.push(("path", J::S(def_path(tcx, did))));
                         o.push(("key", J::S(def_key(tcx, did))));
-                        if let Some(args) = self.tr.node_args_opt(hir_id) {
-                            self.push_callee_details(&mut o, did, args);
-                        }
+                        let args = self.tr.node_args(hir_id);
+                        self.push_callee_details(&mut o, did, args);
                     }
                     _ => {
                         o.push(("path", J::S(def_path(tcx, did))));
